@@ -198,14 +198,19 @@ def recogSet (body : Expr) : List (Ident × Ident) :=
     | e => (matchIn e).toList
 
 /-- `_IntersectionOf…Literals`: the literals of the first list whose observation count equals
-the number of observed lists (an observed list counts a value once per occurrence). -/
+the number of observed lists (an observed list counts a value at most once). -/
 def intersect : List (List Nat) → Option (List Nat)
   | [] => none  -- `@require(len(constraints) >= 1)`
-  | l0 :: rest => some (l0.filter (fun v => (rest.map (fun l => l.count v)).sum = rest.length))
+  | l0 :: rest => some (l0.filter (fun v => rest.countP (fun l => decide (v ∈ l)) = rest.length))
 
-/-- `_merge_set_of_…_constraints` on two given lists: values seen exactly twice in `that ++ other`. -/
+/-- histogram entry of `_merge_set_of_…_constraints`: each of the two lists counts a value at most once -/
+def histo (a b : List Nat) (v : Nat) : Nat :=
+  (if v ∈ a then 1 else 0) + (if v ∈ b then 1 else 0)
+
+/-- `_merge_set_of_…_constraints` on two given lists: values (in order of first occurrence in
+`that ++ other`) counted twice. -/
 def mergeSet (a b : List Nat) : List Nat :=
-  (dedupAux [] (a ++ b)).filter (fun v => (a ++ b).count v = 2)
+  (dedupAux [] (a ++ b)).filter (fun v => histo a b v = 2)
 
 /-! ## `_types.Constraints` and `_inline.py` -/
 
